@@ -411,7 +411,7 @@ pub fn normalise(b: &Built, res: &RunResult) -> (Vec<String>, Vec<String>) {
         Outcome::Aborted(r) => tail.push(Obj::new("aborted").int("t", 0).int("d", 0).str("why", r).done()),
     }
     for (i, m) in &res.panics {
-        tail.push(Obj::new("panic").int("t", *i as i64 + 1).int("d", 0).str("msg", m).done());
+        tail.push(Obj::new("panic").int("t", *i as i64 + 1).int("d", 0).int("inh", m.starts_with("HANDLER:") as i64).str("msg", m).done());
     }
     if res.outcome == Outcome::Done {
         // What the registry holds now, per signal in dispatch order.
